@@ -39,11 +39,17 @@ def lay(x, kind):
         return x[None, :].copy()
     if kind == 'n23':
         return np.tile(x[:, None, None], (1, 2, 3)).copy()
+    if kind == '1n1':
+        return x[None, :, None].copy()
+    if kind == '11n':
+        return x[None, None, :].copy()
+    if kind == 'n21':
+        return np.c_[x, x[::-1]][:, :, None].copy()
     raise KeyError(kind)
 
 
 SIFT_ACC = ('v', 'c', 'c11')
-SIFT_REJ = ('n2', 'row', 'n23')
+SIFT_REJ = ('n2', 'row', 'n23', '1n1', '11n', 'n21')
 VC = ('v', 'c')
 
 
@@ -102,6 +108,18 @@ def entries():
     add('sift_second_layer', lambda a, o: S.sift_second_layer(a, sift_args=o), VC, prep=env_of,
         optdicts=lambda: [dict(max_imfs=2, imf_opts={'sd_thresh': 0.2}, extrema_opts={'pad_width': 1, 'mag_pad_opts': {'mode': 'median', 'stat_length': 1}}),
                           dict(imf_opts={'sd_thresh': 0.3})])
+    def second_layer_defaults(a, o):
+        # default / empty sift_args across calls with different numbers of first-layer IMFs: nothing may be remembered
+        one = a.reshape(len(a), -1)[:, :1]
+        three = np.c_[one, one[::-1] * 0.7 + 0.05, one * 0.4 + 0.2]
+        S.sift_second_layer(one.copy(), **o)
+        got = np.asarray(S.sift_second_layer(three.copy(), **o))
+        want = np.asarray(S.sift_second_layer(three.copy(), sift_args={'max_imfs': 3}))
+        if got.shape != want.shape or not np.array_equal(got, want):
+            raise AssertionError('sift_second_layer with default arguments gives shape %r after an earlier call on one IMF, '
+                                 'expected %r' % (got.shape, want.shape))
+        return got
+    add('sift_second_layer:defaults', second_layer_defaults, VC, prep=env_of, optdicts=lambda: [{}, dict(sift_args={})])
     add('mask_sift_second_layer', lambda a, o: S.mask_sift_second_layer(a, o.pop('__freqs__'), sift_args=o.pop('__args__')), VC, prep=env_of,
         optdicts=lambda: [{'__freqs__': np.array([0.2, 0.1, 0.05]), '__args__': dict(nphases=2, imf_opts={'sd_thresh': 0.2})},
                           {'__freqs__': np.array([0.2, 0.1, 0.05]), '__args__': None}])
@@ -162,7 +180,7 @@ def second_arg(name, x, kind):
 
 def entry_names():
     return ['sift', 'get_next_imf', 'get_next_imf_mask', 'mask_sift', 'ensemble_sift', 'complete_ensemble_sift',
-            'sift_second_layer', 'mask_sift_second_layer', 'get_padded_extrema',
+            'sift_second_layer', 'sift_second_layer:defaults', 'mask_sift_second_layer', 'get_padded_extrema',
             'interp_envelope', 'frequency_transform:hilbert', 'frequency_transform:nht', 'frequency_transform:quad',
             'amplitude_normalise', 'hilberthuang', 'hilberthuang_1d', 'holospectrum', 'get_cycle_vector',
             'get_cycle_vector:mask', 'get_cycle_stat', 'phase_align', 'bin_by_phase', 'Cycles']
